@@ -6,12 +6,15 @@ open Rl4co.Proto
 open Rl4co.Ffsp
 
 def mkInst (hd dur perm : List Int) : Option Inst := do
-  let [S, M, J] := hd | none
+  let (S, M, J, flat) ← match hd with
+    | [S, M, J] => some (S, M, J, true)
+    | [S, M, J, f] => some (S, M, J, f != 0)
+    | _ => none
   let S := S.toNat; let M := M.toNat; let J := J.toNat
   let mt := M * S
   pure { S := S, M := M, J := J,
          dur := fun j m => (dur.getD (j * mt + m) 0).toNat,
-         perm := fun k => (perm.getD k 0).toNat }
+         perm := fun k => (perm.getD k 0).toNat, flat := flat }
 
 def schedStr (i : Inst) (s : State) : String :=
   intsStr ((List.range (MT i)).flatMap (fun m => (List.range (i.J + 1)).map (fun j => s.sched m j)))
@@ -34,9 +37,9 @@ def episode (toks : List String) : Option String := do
       let s' := stepG i s a g
       let fuelOk := g || s'.done || ready i s'
       go s' (maskBits (i.J + 1) s.mask :: ms) (bit s.done :: ds)
-        (s!"{s.time}:{s.sub}:{s.midx}" :: cs) (adm && decide (a < i.J + 1) && s.mask a) (fuel && fuelOk) as gs
+        (s!"{s.time}:{s.sub}:{s.midx}:{s.stage}:{s.smidx}" :: cs) (adm && decide (a < i.J + 1) && s.mask a) (fuel && fuelOk) as gs
     | _, _ => (s, (maskBits (i.J + 1) s.mask :: ms).reverse, (bit s.done :: ds).reverse,
-               (s!"{s.time}:{s.sub}:{s.midx}" :: cs).reverse, adm, fuel)
+               (s!"{s.time}:{s.sub}:{s.midx}:{s.stage}:{s.smidx}" :: cs).reverse, adm, fuel)
   let (s, ms, ds, cs, adm, fuel) := go (reset i) [] [] [] true true as gs
   let ops := Rl4co.Spec.Ffsp.ofMatrix i s.sched
   pure s!"masks={",".intercalate ms} done={String.join ds} clock={",".intercalate cs} adm={bit adm} fuelok={bit fuel} sched={schedStr i s} reward={rewardStr s} rv={rewardVal i s} valid={bit (Rl4co.Spec.Ffsp.valid i ops)} mk={Rl4co.Spec.Ffsp.makespan i ops} nops={ops.length} bound={stepBound i}"
@@ -90,7 +93,18 @@ def enum (toks : List String) : Option String := do
   let enc := ";".intercalate (es.map (fun ops => intsStr (Rl4co.Spec.Ffsp.toMatrix i ops)))
   pure s!"ncand={cands.length} nvalid={vs.length} opt={best vs} nexpr={es.length} optE={best es} expr={enc}"
 
+/-- `ffsp.tables M bs | rows…`: `list(itertools.permutations(range(M)))` and, for each given row index,
+the `pomo_idx` and the permutation `IndexTables.get_machine_index` uses after `set_bs(bs)`. -/
+def tables (toks : List String) : Option String := do
+  let [hd, rows] ← parseSections toks | none
+  let [M, bs] := hd | none
+  let tb : Tables := { M := M.toNat, bs := bs.toNat }
+  let ps := ";".intercalate ((permsOf tb.M).map natsStr)
+  let rs := ";".intercalate ((toNats rows).map (fun r =>
+    s!"{pomoIdx tb.bs r}:{natsStr ((List.range tb.M).map (tb.perm r))}"))
+  pure s!"perms={ps} rows={rs}"
+
 def handlers : List (String × (List String → Option String)) :=
-  [("ffsp.episode", episode), ("ffsp.bfs", bfs), ("ffsp.spec", spec), ("ffsp.enum", enum)]
+  [("ffsp.episode", episode), ("ffsp.bfs", bfs), ("ffsp.spec", spec), ("ffsp.enum", enum), ("ffsp.tables", tables)]
 
 end Rl4co.Driver.Ffsp
